@@ -115,7 +115,7 @@ def run(ctx):
         "completed": completed, "slower_than_3s": slow, "disagreements_model_vs_impl": len(d0) + len(d1),
     })
     ctx.assumptions += ["'bounded time' is a watchdog (6-8 s) on the implementation and absence of stuck states + a decreasing measure in the model; timers and polling are not steps",
-                        "the liveness abstraction covers one file on one connection; multi-file and multi-connection interplay is covered by the grid runs only"]
+                        "the liveness abstractions cover one connection (one file, and k files over n streams); multi-connection interplay is covered by the grid runs only"]
     return ctx.finish(LEVEL)
 
 
